@@ -138,6 +138,12 @@ func specRel(opts []layers.TCPOption, a int, o int, isn uint32) uint32 {
 //@ modifies s.state
 //@ loop 1 invariant[found]  foundSackPermitted == exists(a, 0, range_i, s.parser.TCP.Options[a].OptionType == layers.TCPOptionKindSACKPermitted)
 
+// the SACK budget: handshake + FIN + the parallel engine's budget (C08: "handshake and lookup timeouts included")
+//@ func (Params).MaxTimeout
+//@ safety C08
+//@ ensures[C08.sack.budget]  ret0 == p.HandshakeTimeout + p.FinTimeout + p.ParallelParams.MaxTimeout()
+//@ modifies nothing
+
 //@ func (*sackDriver).ReadHandshake
 //@ safety C10 C20 C08
 //@ requires[pre.nonnil]     s != nil && s.source != nil && s.parser != nil && s.parser.parserv4 != nil && s.parser.parserv6 != nil
